@@ -14,7 +14,7 @@ use crate::tape::Tape;
 
 pub static PROP: PropDef = PropDef {
     id: "C18",
-    rule: "encode cases: (quarter id k, payload, consumption pattern of the encoded Buf) -> bytes must equal varint(k) || payload and decode back to (4k, payload); \
+    rule: "every decode is repeated from a buffer of several chunks and must give the same stream id, payload or refusal; encode cases: (quarter id k, payload, consumption pattern of the encoded Buf) -> bytes must equal varint(k) || payload and decode back to (4k, payload); \
            decode cases: byte string -> accepted iff the varint is complete and 4*q <= 2^62-1, else H3_DATAGRAM_ERROR. exhaustive: all k < 2^16 with three consumption patterns, \
            every varint form boundary, all strings of <= 2 bytes (3 in thorough); random k, payloads 0..1500 and strings 0..9(+payload) from the tape. \
            non-trivial = quarter id needing >= 2 bytes, or a consumption pattern that splits the header, or a rejected input; distinct by (k, payload hash, pattern) / input bytes",
@@ -249,6 +249,29 @@ fn check_decode(b: &[u8], ctx: &mut Ctx) -> Verdict {
         }
         (Some((sid, _)), Err(e)) => return Err(Failure::direct(format!("valid datagram for stream {sid} refused: {e:?}"), case())),
         (None, Ok(d)) => return Err(Failure::direct(format!("invalid datagram accepted as stream {}", d.stream_id().into_inner()), case())),
+    }
+    // the same bytes in a buffer of several chunks: same stream, same payload, same refusal
+    for cuts in crate::tape::cut_sets(b) {
+        ctx.eval();
+        let case = || json!({"kind": "decode", "bytes": hex(b), "cuts": cuts});
+        let segs = crate::tape::Segs::new(b, &cuts);
+        let got = crate::runner::catch(move || Datagram::decode(segs).map(|d| (d.stream_id().into_inner(), d.payload().drain_all())).map_err(code_of)).map_err(|p| Failure::direct(format!("Datagram::decode over a segmented buffer panicked: {p}"), case()))?;
+        match (expect, got) {
+            (Some((sid, n)), Ok((s2, p2))) => {
+                if s2 != sid || p2 != b[n..] {
+                    return Err(Failure::direct(format!("from chunks cut at {cuts:?}: decoded stream id {s2} payload {} expected {sid} / {}", hex(&p2), hex(&b[n..])), case()));
+                }
+                ctx.class("decode_segmented_agrees");
+            }
+            (None, Err(c)) => {
+                if c != Some(Code::H3_DATAGRAM_ERROR) {
+                    return Err(Failure::direct(format!("from chunks cut at {cuts:?}: refused with {c:?}, expected code H3_DATAGRAM_ERROR"), case()));
+                }
+                ctx.class("decode_segmented_agrees");
+            }
+            (Some((sid, _)), Err(c)) => return Err(Failure::direct(format!("valid datagram for stream {sid} refused ({c:?}) when it comes in chunks cut at {cuts:?}"), case())),
+            (None, Ok((s2, _))) => return Err(Failure::direct(format!("invalid datagram accepted as stream {s2} when it comes in chunks cut at {cuts:?}"), case())),
+        }
     }
     Ok(())
 }
